@@ -1,5 +1,6 @@
 import EtVerif.Props.C08
 import EtVerif.Props.TrC08
+import EtVerif.Props.TrGo08
 #print axioms EtVerif.C08.extract_split
 #print axioms EtVerif.C08.extract_signs
 #print axioms EtVerif.C08.extract_disjoint
@@ -20,3 +21,21 @@ import EtVerif.Props.TrC08
 -- refinement of the translated Go kernels (Gen/Translated.lean, regenerated from /repo) to the model
 #print axioms EtVerif.TrC08.extractDistrust_refines
 #print axioms EtVerif.TrC08.discount_refines
+-- the property stated about the translated Go code (composition of refinement and model-level theorems)
+#print axioms EtVerif.TrGo08.go_extract_of_ok
+#print axioms EtVerif.TrGo08.go_extract_of_error
+#print axioms EtVerif.TrGo08.go_discount
+#print axioms EtVerif.TrGo08.go_extract_ok
+#print axioms EtVerif.TrGo08.go_extract_split
+#print axioms EtVerif.TrGo08.go_extract_signs
+#print axioms EtVerif.TrGo08.go_extract_disjoint
+#print axioms EtVerif.TrGo08.go_extract_order
+#print axioms EtVerif.TrGo08.go_extract_wf
+#print axioms EtVerif.TrGo08.go_extract_spec
+#print axioms EtVerif.TrGo08.go_extract_error
+#print axioms EtVerif.TrGo08.go_discount_spec
+#print axioms EtVerif.TrGo08.go_discount_wf
+#print axioms EtVerif.TrGo08.go_discount_zero_rep_general
+#print axioms EtVerif.TrGo08.go_discount_zero_rep
+#print axioms EtVerif.TrGo08.go_discount_zero_rep_exact
+#print axioms EtVerif.TrGo08.go_discount_zero_rep_set_exact
